@@ -389,8 +389,7 @@ impl FastSearchEngine {
         // Use rank-select to find all 1-bits (target positions)
         let total_ones = cache.rank_select.rank1(cache.bit_vector.len());
         
-        // select1 counts the one bits from 0
-        for i in 0..total_ones {
+        for i in 1..=total_ones {
             if let Ok(pos) = cache.rank_select.select1(i) {
                 positions.push(pos);
             }
